@@ -6,10 +6,13 @@ ROOT = os.path.dirname(os.path.dirname(os.path.abspath(__file__)))
 SD = os.path.join(ROOT, "seeded")
 only = sys.argv[1:]
 rows, missed = [], 0
-for name in sorted(os.listdir(SD)):
+from concurrent.futures import ThreadPoolExecutor
+names = [n for n in sorted(os.listdir(SD)) if os.path.isdir(os.path.join(SD, n))]
+JOBS = int(os.environ.get("SELFTEST_JOBS", "4"))
+
+
+def one(name):
     d = os.path.join(SD, name)
-    if not os.path.isdir(d):
-        continue
     pid = name.split("-")[0]
     mp = os.path.join(d, "meta.json")
     meta = json.load(open(mp)) if os.path.exists(mp) else {}
@@ -37,9 +40,15 @@ for name in sorted(os.listdir(SD)):
         meta["caught"] = r.returncode == 1
         meta["check_message"] = msg
         print(("caught " if r.returncode == 1 else "MISSED(exit %d) " % r.returncode) + name, flush=True)
+    json.dump(meta, open(mp, "w"), indent=1, ensure_ascii=False)
+    return name, pid, meta
+
+
+with ThreadPoolExecutor(max_workers=JOBS) as ex:
+    results = list(ex.map(one, names))
+for name, pid, meta in results:
     if not meta.get("caught"):
         missed += 1
-    json.dump(meta, open(mp, "w"), indent=1, ensure_ascii=False)
     rows.append("| %s | %s | %s | %s | %s |" % (pid, name, (meta.get("summary") or "").replace("|", "/")[:220], (meta.get("needs_to_manifest") or "").replace("|", "/")[:200],
                 ("caught by ./check %s (quick)" % pid if meta.get("caught") else "MISSED") + ((" - first missed, check strengthened: " + meta["strengthened"]) if meta.get("strengthened") else "")))
 with open(os.path.join(SD, "RESULTS.md"), "w") as f:
